@@ -121,6 +121,12 @@ var c18special = []string{``, ` `, `garbage`, `{`, `[`, `[]`, ` [ ] `, `[[]]`, `
 	`{"jsonrpc":"2.0"}`, `{"jsonrpc":"2.0","method":""}`, `{"jsonrpc":"2.0","id":null}`, `{"jsonrpc":"2.0","result":1}`, `{"jsonrpc":"2.0","params":[]}`,
 	`[{"jsonrpc":"2.0"},{"jsonrpc":"2.0","id":1,"method":"i","params":{"t":"sx"}}]`,
 	`[{"jsonrpc":"2.0","method":"i","params":{"t":"sy"}},{"jsonrpc":"2.0","params":{"t":"sz"}}]`,
+	// handlers that fail with the context codes: ordinary error responses, alone, next to others, next to invalid members
+	`{"jsonrpc":"2.0","id":1,"method":"c","params":{"t":"ka"}}`, `{"jsonrpc":"2.0","id":"d","method":"d","params":{"t":"kb"}}`,
+	`[{"jsonrpc":"2.0","id":1,"method":"c","params":{"t":"kc"}}]`, `[{"jsonrpc":"2.0","id":2,"method":"d","params":{"t":"kd"}},{"jsonrpc":"2.0","id":3,"method":"i","params":{"t":"ke"}}]`,
+	`[{"jsonrpc":"1.0","id":4,"method":"i","params":{"t":"kf"}},{"jsonrpc":"2.0","id":5,"method":"c","params":{"t":"kg"}}]`,
+	`[{"jsonrpc":"2.0","id":6,"method":"d","params":{"t":"kh"}},7,{"jsonrpc":"2.0","method":"c","params":{"t":"ki"}}]`,
+	`{"jsonrpc":"2.0","method":"c","params":{"t":"kj"}}`, `[{"jsonrpc":"2.0","id":8,"method":"c","params":{"t":"kk"}},{"jsonrpc":"2.0","id":9,"method":"d","params":{"t":"kl"}}]`,
 }
 
 // c18sampled names the cases that contribute a sample to the evidence file.
@@ -146,6 +152,9 @@ func c18cases(e vt.Env, yield func(vt.Case) bool) {
 		return
 	}
 	if !c18e3(e, yield) {
+		return
+	}
+	if !c18e5(e, yield) {
 		return
 	}
 	c18e4(e, yield)
